@@ -17,7 +17,8 @@ Observation after every step (all values canonical strings: true/false, decimal,
   rc       'ok' | 'fail'
   msgs     {'top:name' | 'sub:name': value}     what get_option() returned during this (re)configure (None for
                                                 configure / edit)
-  core     None (no coredata.dat) | {'eff': {k: v | '!ExcName'}, 'own': {k: v}, 'aug': {k: v}, 'yield': {k: bool}}
+  core     None (no coredata.dat) | {'eff': {k: v | '!ExcName'}, 'own': {k: v}, 'aug': {k: v}, 'yield': {k: bool},
+                                    'stale': [k]  (options whose .parent is not the registered top-level object)}
   cmdline  None (no cmd_line.txt) | [[key, val], ...]          the [options] section, in file order
   intro    None | {'name' | 'sub:name': value}                  meson-info/intro-buildoptions.json (what
                                                                 `meson introspect --buildoptions` prints)
@@ -190,7 +191,10 @@ def read_core(bd: str) -> T.Optional[dict]:
             own[name] = canon(o.value)
             yl[name] = bool(o.yielding)
     aug = {str(k): canon(v) for k, v in st.augments.items()}
-    return {'eff': eff, 'own': own, 'aug': aug, 'yield': yl}
+    # children whose .parent is not the object registered under the top-level key
+    stale = [name for k, name in keys if k in st.options and st.options[k].parent is not None and
+             st.options.get(k.as_root()) is not st.options[k].parent]
+    return {'eff': eff, 'own': own, 'aug': aug, 'yield': yl, 'stale': stale}
 
 
 def real_introspect(bd: str) -> T.Optional[T.Dict[str, str]]:
